@@ -181,4 +181,60 @@ split, missing key → unreachable, look up, validator false → failure, else i
 theorem C05_gen_call_shape :
     callSteps = [.ifEmpty_unreachable, .takeKey, .takeOptions, .ifMissing_unreachable, .lookup,
                  .ifValidatorFalse_failure, .invoke] := by decide
+
+open Primaite.Gen.RequestCore in
+/-- Totality of the key test: an element that cannot be a dictionary key (a list or dict in a key position) is answered
+`unreachable` / `False` like any other unknown name — in the model it simply is a key no manager has (`lookup` is total);
+in the code the membership test is guarded by `_is_hashable`, in `__call__` and in `check_valid`. -/
+theorem C05_gen_total_on_unhashable : callTotalOnUnhashable = true ∧ checkValidTotalOnUnhashable = true := by decide
+
+/-- The model's dispatch is total: EVERY request (any length, any elements — the wire form keeps the Python type of an
+element, so `1`, `"1"`, `None`, a list or a dict are different keys) resolves to exactly one of the three outcomes, and
+the two refusals are the only outcomes of a request whose first element is not a key of the manager or which is empty. -/
+theorem C05_dispatch_total (env : Env) (kids : Kids) (p : List Key) (d : Nat) :
+    (∃ d', dispatchK env kids p d = .unreachable d') ∨ (∃ d' v, dispatchK env kids p d = .failure d' v) ∨
+    (∃ h a, dispatchK env kids p d = .reached h a) := by
+  cases h : dispatchK env kids p d with
+  | unreachable d' => exact Or.inl ⟨d', rfl⟩
+  | failure d' v => exact Or.inr (Or.inl ⟨d', v, rfl⟩)
+  | reached hh a => exact Or.inr (Or.inr ⟨hh, a, rfl⟩)
+
+/-- an empty request and a request whose first element names nothing are `unreachable` at the current depth -/
+theorem C05_unknown_or_empty_unreachable (env : Env) (kids : Kids) (d : Nat) :
+    dispatchK env kids [] d = .unreachable d ∧
+    ∀ k rest, lookup k kids = none → dispatchK env kids (k :: rest) d = .unreachable d := by
+  refine ⟨by simp [dispatchK], ?_⟩
+  intro k rest h
+  simp [dispatchK, h]
+
+/-- the depth reported by a refusal never exceeds the length of the request: an over-long request is cut at the handler
+(its surplus elements are the handler's options), a short one ends `unreachable` at its own length -/
+theorem C05_depth_bounded (env : Env) (kids : Kids) (p : List Key) (d : Nat) :
+    (∀ d', dispatchK env kids p d = .unreachable d' → d ≤ d' ∧ d' ≤ d + p.length) ∧
+    (∀ d' v, dispatchK env kids p d = .failure d' v → d ≤ d' ∧ d' < d + p.length) := by
+  induction p generalizing kids d with
+  | nil => simp [dispatchK]
+  | cons k rest ih =>
+    simp only [dispatchK, List.length_cons]
+    cases hl : lookup k kids with
+    | none => simp
+    | some vs =>
+      obtain ⟨v, sub⟩ := vs
+      cases hv : env v rest with
+      | false => simp [hv]
+      | true =>
+        cases sub with
+        | leaf h => simp [hv]
+        | node kids' =>
+          simp only [hv, if_true]
+          obtain ⟨h1, h2⟩ := ih kids' (d + 1)
+          constructor
+          · intro d' hd; have := h1 d' hd; omega
+          · intro d' w hd; have := h2 d' w hd; omega
+
+example : dispatchK envOn exKids ["network", "o:%5B%22x%22%5D", "pc"] 0 = .unreachable 1 := by decide
+example : dispatchK envOn exKids [] 0 = .unreachable 0 := by decide
+example : dispatchK envOn exKids ["network", "node", "pc", "shutdown", "a", "b", "c", "d"] 0 = .reached 10 ["a", "b", "c", "d"] := by
+  decide
 end Primaite.Request
+
